@@ -103,7 +103,7 @@ theorem C15_every_location_in_file_current (fuel : Nat) (src : Str) (o : Options
     entries (the delimiter `'\n\n'`, mapped to the last position), the offsets of the matches
     unchanged — `shellPad r.pos` is the `pad` of the theorems below -/
 theorem C14_shell_assembly (txt : Str) (pos : List Nat) (ms : List RawMatch) :
-    assemble [({ plain := txt, charmap := natMap pos }, ms)] =
+    assembleNB [({ plain := txt, charmap := natMap pos }, ms)] =
       { plainTot := txt ++ ['\n', '\n'], charmapTot := natMap pos ++ shellPad pos, hits := ms } :=
   assemble_single txt pos ms
 
